@@ -1,5 +1,5 @@
 """spyne/server/null.py, spyne/application.py, spyne/descriptor.py, spyne/server/_base.py,
-spyne/protocol/xml.py, spyne/protocol/soap/soap11.py, spyne/const  ->  Gen/NullSrv.v   (C18)
+spyne/protocol/xml.py, spyne/protocol/soap/soap11.py, spyne/protocol/dictdoc/hier.py, spyne/const  ->  Gen/NullSrv.v   (C18)
 
 What is translated (everything else in those functions is matched rigidly, statement by
 statement, and any unknown shape raises TranslateError):
@@ -17,6 +17,8 @@ statement, and any unknown shape raises TranslateError):
       ignored_to_null
   protocol.xml.XmlDocument.serialize           non-wrapped: out_object / [0]      xml_nonwrapped
   protocol.soap.soap11.Soap11.serialize        non-wrapped: out_object / [0]      soap_nonwrapped
+  protocol.dictdoc.hier.HierDictDocument       request body looked up under the   hier_bare_lookup
+      .deserialize                             type name / the message name
   spyne.const                                  RESULT_SUFFIX, RESPONSE_SUFFIX     result_suffix, response_suffix
 """
 import ast, os
@@ -454,6 +456,47 @@ def tr_soap(repo):
     return ['Definition soap_nonwrapped : nw_mode := %s.' % mode]
 
 
+def tr_hier(repo):
+    """HierDictDocument.deserialize: the key the request body is looked up under"""
+    t = parse(repo, 'spyne/protocol/dictdoc/hier.py')
+    fn = find(find(t.body, ast.ClassDef, 'HierDictDocument').body, ast.FunctionDef, 'deserialize')
+    outer = [s for s in code(fn.body) if isinstance(s, ast.If) and U(s.test) == 'body_class']
+    if len(outer) != 1:
+        fail('HierDictDocument.deserialize: the body_class test')
+    body = code(outer[0].body)
+    src = [U(s) for s in body]
+    if 'class_name = self.get_class_name(body_class)' not in src:
+        fail('HierDictDocument.deserialize: class_name is not the type name of the message class')
+    i = src.index('class_name = self.get_class_name(body_class)')
+    if i + 1 >= len(body) or not isinstance(body[i + 1], ast.If) or U(body[i + 1].test) != 'self.ignore_wrappers' \
+            or body[i + 1].orelse:
+        fail('HierDictDocument.deserialize: the ignore_wrappers block')
+    for s in body[:i]:
+        if mentions(s, 'class_name'):
+            fail('HierDictDocument.deserialize: class_name touched before its definition', s)
+    blk = [U(s) for s in code(body[i + 1].body)]
+    if not blk or blk[-1] != 'doc = doc.get(class_name, None)':
+        fail('HierDictDocument.deserialize: the lookup %r' % (blk[-1:],))
+    mode = 'LkTypeName'
+    sub = ("if message is self.REQUEST and sub_name is not None:\n"
+           "    if isinstance(class_name, bytes) and (not isinstance(sub_name, bytes)):\n"
+           "        sub_name = sub_name.encode('utf8')\n    class_name = sub_name")
+    # the str form of a bytes class name (msgpack): no effect on a str-keyed document
+    asstr = "if isinstance(class_name, bytes) and (not class_name in doc):\n    class_name = class_name.decode('utf8')"
+    rest = blk[:-1]
+    if rest[:2] == ['sub_name = body_class.Attributes.sub_name', sub]:
+        mode = 'LkSubName'
+        rest = rest[2:]
+    if rest not in ([], [asstr]):
+        fail('HierDictDocument.deserialize: unrecognised statements before the lookup %r' % (rest,))
+    tail = src[i + 2:]
+    if not tail or tail[-1] != 'ctx.in_object = result_message':
+        fail('HierDictDocument.deserialize: ctx.in_object is not the decoded message')
+    if not any('self._doc_to_object(ctx, body_class, doc, self.validator)' in x for x in tail):
+        fail('HierDictDocument.deserialize: the message is not decoded with _doc_to_object')
+    return ['Definition hier_bare_lookup : lk_mode := %s.' % mode]
+
+
 def tr_const(repo):
     import importlib
     const = importlib.import_module('spyne.const')
@@ -482,5 +525,6 @@ def generate(repo):
     out.extend(tr_srv_ignored(repo))
     out.extend(tr_xml(repo))
     out.extend(tr_soap(repo))
+    out.extend(tr_hier(repo))
     out.extend(tr_const(repo))
     return {'NullSrv.v': '\n'.join(out) + '\n'}
